@@ -35,6 +35,16 @@ class Boom(Exception):
     pass
 
 
+class Runaway(BaseException):
+    """Handler nesting far beyond anything the generated programs can reach (they nest at most one
+    level per message family): the hub re-delivers without end.  Once raised, every further
+    handler call of the case raises it again at once, so that `finally` clauses which flush again
+    while the stack unwinds cannot blow up the running time."""
+
+
+MAX_LEVEL = 40
+
+
 _CLASSES = {(): Message}
 
 
@@ -97,6 +107,7 @@ class Ctx:
         self.listeners = {}
         self.log = []
         self.lvl = 0
+        self.aborted = False
 
     def listener(self, l):
         x = self.listeners.get(l)
@@ -106,6 +117,9 @@ class Ctx:
 
     def handle(self, listener, hid, msg):
         lvl = self.lvl
+        if self.aborted or lvl > MAX_LEVEL:
+            self.aborted = True
+            raise Runaway()
         self.log.append(["e", lvl, listener.lid, path_of(type(msg)), msg.tag])
         self.lvl = lvl + 1
         try:
@@ -191,6 +205,9 @@ def run_case(case):
         res = "ok"
     except Boom:
         res = "exn"
+    except Runaway:
+        res = "runaway-redelivery"
+        del ctx.log[60:]
     out = [res, ctx.log, ctx.subs(), ctx.snapshot()]
     ctx.listeners.clear()
     return out
@@ -338,7 +355,7 @@ class Prog(Family):
     exhaustive = True
     batch = 400
     budget_share = 2.0
-    case_timeout = 10.0
+    case_timeout = 5.0
 
     def setup(self):
         gc.disable()
